@@ -460,6 +460,149 @@ mutate "(n6) harmless: TreeMap.Find with renamed locals" maps/treemap/enumerable
 	}
 	return foundKey, foundValue'
 
+mutate "(j1) arraylist.FromJSON decodes into list.elements[:0]" lists/arraylist/serialization.go \
+'	var elements []T
+	err := json.Unmarshal(data, &elements)' '	elements := list.elements[:0]
+	err := json.Unmarshal(data, &elements)'
+
+mutate "(j2) hashbidimap.FromJSON writes forwardMap / inverseMap directly" maps/hashbidimap/serialization.go \
+'		m.Put(k, v)' '		m.forwardMap.Put(k, v)
+		m.inverseMap.Put(v, k)'
+
+mutate "(j3) treebidimap.FromJSON writes forwardMap / inverseMap directly" maps/treebidimap/serialization.go \
+'		m.Put(key, value)' '		m.forwardMap.Put(key, value)
+		m.inverseMap.Put(value, key)'
+
+mutate "(j4) singlylinkedlist.FromJSON element by element into one shared value" lists/singlylinkedlist/serialization.go \
+'	var elements []T
+	err := json.Unmarshal(data, &elements)
+	if err == nil {
+		list.Clear()
+		list.Add(elements...)
+	}
+	return err' '	var raw []json.RawMessage
+	err := json.Unmarshal(data, &raw)
+	if err == nil {
+		list.Clear()
+		var value T
+		for _, r := range raw {
+			json.Unmarshal(r, &value)
+			list.Add(value)
+		}
+	}
+	return err'
+
+mutate "(j5) singlylinkedlist.FromJSON: streaming decode after Clear above 64 KiB" lists/singlylinkedlist/serialization.go \
+'func (list *List[T]) FromJSON(data []byte) error {
+	var elements []T' 'func (list *List[T]) FromJSON(data []byte) error {
+	if len(data) > 65536 {
+		list.Clear()
+		dec := json.NewDecoder(bytes.NewReader(data))
+		dec.Token()
+		for dec.More() {
+			var v T
+			if err := dec.Decode(&v); err != nil {
+				return err
+			}
+			list.Add(v)
+		}
+		return nil
+	}
+	var elements []T'
+
+mutate "(j6) circularbuffer.ToJSON marshals the raw slots when full" queues/circularbuffer/serialization.go \
+'	return json.Marshal(queue.Values())' '	if queue.full {
+		return json.Marshal(queue.values)
+	}
+	return json.Marshal(queue.Values())'
+
+mutate "(j7) binaryheap.UnmarshalJSON delegates to heap.list.UnmarshalJSON (no re-heapify)" trees/binaryheap/serialization.go \
+'	return heap.FromJSON(bytes)' '	return heap.list.UnmarshalJSON(bytes)'
+
+mutate "(j8) hashmap.MarshalJSON lazily initialises a nil map" maps/hashmap/serialization.go \
+'	return m.ToJSON()' '	if m.m == nil {
+		m.m = make(map[K]V)
+	}
+	return m.ToJSON()'
+
+mutate "(j9) redblacktree.FromJSON through a Decoder with a trailing-data check" trees/redblacktree/serialization.go \
+'	err := json.Unmarshal(data, &elements)' '	decoder := json.NewDecoder(bytes.NewReader(data))
+	err := decoder.Decode(&elements)
+	if err == nil && decoder.More() {
+		err = errTrailing
+	}'
+
+mutate "(j10) treeset.FromJSON forgets Clear" sets/treeset/serialization.go \
+'		set.Clear()
+		set.Add(elements...)' '		set.Add(elements...)'
+
+mutate "(j11) binaryheap.FromJSON heapifies from size/2 - 1 only" trees/binaryheap/serialization.go \
+'for i := heap.list.Size()/2 + 1; i >= 0; i--' 'for i := heap.list.Size()/2 - 1; i >= 0; i--'
+
+mutate "(j12) harmless: hashset.FromJSON with if err != nil { return err } and renamed temporaries" sets/hashset/serialization.go \
+'	var elements []T
+	err := json.Unmarshal(data, &elements)
+	if err == nil {
+		set.Clear()
+		set.Add(elements...)
+	}
+	return err' '	var decoded []T
+	if e := json.Unmarshal(data, &decoded); e != nil {
+		return e
+	}
+	set.Clear()
+	set.Add(decoded...)
+	return nil'
+
+mutate "(j13) harmless: treebidimap.FromJSON reshaped (if err == nil)" maps/treebidimap/serialization.go \
+'	if err != nil {
+		return err
+	}
+
+	m.Clear()
+	for key, value := range elements {
+		m.Put(key, value)
+	}
+
+	return nil' '	if err == nil {
+		m.Clear()
+		for k, v := range elements {
+			m.Put(k, v)
+		}
+	}
+	return err'
+
+mutate "(s1) HashSet.Intersection returns &Set[T]{} (nil map) for an empty operand" sets/hashset/hashset.go \
+'func (set *Set[T]) Intersection(another *Set[T]) *Set[T] {
+	result := New[T]()
+' 'func (set *Set[T]) Intersection(another *Set[T]) *Set[T] {
+	if another.Size() == 0 {
+		return &Set[T]{}
+	}
+	result := New[T]()
+'
+
+mutate "(s2) HashSet.Union returns a struct copy sharing the map when the other set is empty" sets/hashset/hashset.go \
+'func (set *Set[T]) Union(another *Set[T]) *Set[T] {
+	result := New[T]()
+' 'func (set *Set[T]) Union(another *Set[T]) *Set[T] {
+	if another.Size() == 0 {
+		copied := *set
+		return &copied
+	}
+	result := New[T]()
+'
+
+mutate "(s3) HashSet.Difference shares the map when the other set is empty" sets/hashset/hashset.go \
+'func (set *Set[T]) Difference(another *Set[T]) *Set[T] {
+	result := New[T]()
+' 'func (set *Set[T]) Difference(another *Set[T]) *Set[T] {
+	if another.Size() == 0 {
+		return &Set[T]{items: set.items}
+	}
+	result := New[T]()
+'
+
 mutate "(h) Dequeue forgets to wrap start" $CB \
 '	if queue.start >= queue.maxSize {
 		queue.start = 0
